@@ -732,6 +732,7 @@ def xls_contracts():
 def builder_contracts(reg):
     C = _C17
     reg.ext_models["str.lower"] = C.m_lower
+    reg.ext_models["str.split"] = C.m_split
     reg.method_models[("HTMLParserBase", "__init__")] = lambda ex, st, obj, a, k, n: [(st, NONE)]
     P_STR = Maker(lambda ex, st, name: VStr(z3.String(name)), desc="str")
     P_ATTRS = Maker(lambda ex, st, name: VExt("AttrList"), desc="list of (name, value|None) pairs")
@@ -777,6 +778,16 @@ def builder_contracts(reg):
             ens = [("comments-change-nothing", lambda c: C.frame(c, ()))]
         out.append(FnContract(target=f"{HTML}::_HtmlTreeBuilder.{name}", params=[("self", C.html_self())] + extra, requires=req,
                               ensures=ens, modifies=("self",)))
+
+    # EPUB chapter walker (same removed-markup discipline, text sinks instead of a tree)
+    def e_untouched(c):
+        sd = c.entry.obj(c.args["self"].ref).data.get("skip_depth")
+        if not isinstance(sd, VInt):
+            return z3.BoolVal(False)
+        return z3.Implies(sd.t > 0, C.frame(c, C.skip_fields(C.EPUB, C.ECLS, c.ex.module.repo)))
+    for name, extra in (("handle_starttag", [("tag", P_STR), ("attrs", P_ATTRS)]), ("handle_endtag", [("tag", P_STR)]), ("handle_data", [("data", P_STR)])):
+        out.append(FnContract(target=f"{C.EPUB}::{C.ECLS}.{name}", params=[("self", C.epub_self())] + extra,
+                              ensures=[("inside-removed-markup-text-sinks-and-layout-state-untouched", e_untouched)], modifies=("self",)))
     return out
 
 
@@ -968,6 +979,7 @@ FUNC_OF_CHECK = {
     "odp.slide": "odp_extractor.py::_extract_slide",
     "html.source": "html_extractor.py::read_html",
     "rtf.source": "rtf_extractor.py::read_rtf",
+    "epub.source": "epub_extractor.py::read_epub",
 }
 
 
